@@ -12,6 +12,12 @@ forwarded.  Quantifier: every query text (any length, joins, explain) and ACL co
   the proxy sends upstream is the text the client sent, byte for byte, and the upstream's view
   of exactly that text (`upstreamView`: catalog branch, SET branch, or the topics of `P text`)
   touches only allowed topics (and lists all topics only if the ACL allows SHOW TOPICS).
+* `views_agree`: the proxy's view of a text (`proxyView`, modelled from proxy.go) equals the
+  upstream's view of the same text (`upstreamView`, modelled from server.go `handleQuery` with its
+  entry normalisation `upEntry`); `forward_sound_rel` is `forward_sound` for an arbitrary upstream
+  under that agreement; `entry_trim_views_differ`, `regexp_fold_views_differ(_rev)`: an upstream
+  that strips a terminator on entry / a proxy whose catalog test folds case like a `(?i)` regexp
+  break the agreement and the property.
 * `truncation_bypass_old`, `catalog_bypass_old`, `set_catalog_bypass_old`,
   `double_semicolon_bypass_old`: the code before the fix forwards texts whose upstream view is
   not allowed.
@@ -32,11 +38,33 @@ theorem allowShowTopics_of_empty (a : Acl) (h1 : a.allow.isEmpty = true) (h2 : a
     allowShowTopics a = true := by
   simp [allowShowTopics, h1, h2]
 
+/-! ### the proxy's and the upstream's views of one text -/
+
+/-- **C37 (views).** As coded, the proxy's view of a text (what `authorizeQuery` takes it to
+touch) IS the upstream's view of the same text (what `handleQuery` does with it): same catalog
+test, same SET/RESET test, same `Parse` on the same bytes; a text the proxy cannot parse is one
+the upstream cannot parse either (it reads nothing). -/
+theorem _root_.KafVerif.C37.views_agree (e : Env) (q : Bytes) :
+    (proxyView e q).getD ([], false) = upstreamView e q := by
+  have h1 : pxCatalog e.lowerU q = upCatalog e.lowerU q := rfl
+  have h2 : pxSet e.lowerU q = upSet e.lowerU q := rfl
+  simp only [proxyView, proxyViewG, upstreamView, upstreamViewG, upEntry, h1, h2]
+  by_cases hc : upCatalog e.lowerU q = true
+  · simp [hc]
+  · by_cases hs : upSet e.lowerU q = true
+    · simp [hc, hs]
+    · cases hP : e.P q <;> simp [hc, hs]
+
+/-- … in particular the topic lists agree -/
+theorem _root_.KafVerif.C37.topics_agree (e : Env) (q : Bytes) : proxyTopics e q = upstreamTopics e q := by
+  simp only [proxyTopics, upstreamTopics, KafVerif.C37.views_agree]
+
 /-! ### the decision is sound for the text it was computed on -/
 
-theorem authorize_sound (e : Env) (a : Acl) (q : Bytes) (h : authorize e a q = true) :
-    Safe a (upstreamView e q) := by
-  unfold authorize at h
+/-- the decision is sound for the PROXY's view of the text (any lowering in the catalog test) -/
+theorem authorizeG_view (lowCat : Bytes → Bytes) (e : Env) (a : Acl) (q : Bytes)
+    (h : authorizeG lowCat e a q = true) : Safe a ((proxyViewG lowCat e q).getD ([], false)) := by
+  unfold authorizeG at h
   split at h
   · -- no ACL configured: everything is allowed
     rename_i hempty
@@ -44,19 +72,19 @@ theorem authorize_sound (e : Env) (a : Acl) (q : Bytes) (h : authorize e a q = t
     exact ⟨fun t _ => allows_of_empty a hempty.1 hempty.2 t, fun _ => allowShowTopics_of_empty a hempty.1 hempty.2⟩
   · split at h
     · rename_i hcat
-      simp only [upstreamView, hcat, if_true]
+      simp only [proxyViewG, hcat, if_true, Option.getD_some]
       exact ⟨fun t ht => by simp at ht, fun _ => h⟩
     · rename_i hcat
       split at h
       · rename_i hset
-        simp only [upstreamView, hcat, hset, if_true]
+        simp only [proxyViewG, hcat, hset, if_true]
         exact ⟨fun t ht => by simp at ht, fun hf => by simp at hf⟩
       · rename_i hset
-        simp only [upstreamView, hcat, hset]
+        simp only [proxyViewG, hcat, hset]
         split at h
         · simp at h
         · rename_i topics showTopics hP
-          simp only [Bool.false_eq_true, if_false, hP]
+          simp only [Bool.false_eq_true, if_false, hP, Option.getD_some]
           split at h
           · simp at h
           · rename_i hshow
@@ -65,6 +93,18 @@ theorem authorize_sound (e : Env) (a : Acl) (q : Bytes) (h : authorize e a q = t
             cases hst : allowShowTopics a with
             | true => rfl
             | false => simp [hs, hst] at hshow
+
+/-- **assume/guarantee form.** Whatever the upstream is (`U` = the topics it reads / whether it
+lists, per received text): if the proxy's view of `q` agrees with it, a positive decision on `q` is
+safe for what the upstream does with `q`. -/
+theorem _root_.KafVerif.C37.authorize_sound_rel (U : Bytes → List Bytes × Bool) (lowCat : Bytes → Bytes)
+    (e : Env) (a : Acl) (q : Bytes) (hU : (proxyViewG lowCat e q).getD ([], false) = U q)
+    (h : authorizeG lowCat e a q = true) : Safe a (U q) := by
+  rw [← hU]; exact authorizeG_view lowCat e a q h
+
+theorem authorize_sound (e : Env) (a : Acl) (q : Bytes) (h : authorize e a q = true) :
+    Safe a (upstreamView e q) :=
+  KafVerif.C37.authorize_sound_rel (upstreamView e) e.lowerU e a q (KafVerif.C37.views_agree e q) h
 
 /-! ### the cache only ever holds decisions computed on its key -/
 
@@ -110,9 +150,13 @@ theorem cacheSet_ok (e : Env) (a : Acl) (c : Cache) (key : Bytes) (h : CacheOK e
       rw [h1]
 
 /-- one query: the forwarded text is the client's text and is safe; the cache invariant is kept -/
-theorem handle_sound (e : Env) (a : Acl) (c : Cache) (q : Bytes) (ex : Bool) (h : CacheOK e a c) :
+theorem handle_sound (U : Bytes → List Bytes × Bool) (e : Env) (a : Acl)
+    (hU : ∀ q, (proxyView e q).getD ([], false) = U q)
+    (c : Cache) (q : Bytes) (ex : Bool) (h : CacheOK e a c) :
     CacheOK e a (handle e a c q ex).1 ∧
-    ∀ t, (handle e a c q ex).2 = some t → t = q ∧ Safe a (upstreamView e t) := by
+    ∀ t, (handle e a c q ex).2 = some t → t = q ∧ Safe a (U t) := by
+  have authorize_sound : ∀ q, authorize e a q = true → Safe a (U q) := fun q hq =>
+    KafVerif.C37.authorize_sound_rel U e.lowerU e a q (hU q) hq
   have hg := cacheGet_ok e a c q ex h
   unfold handle
   cases hget : cacheGet c q ex with
@@ -128,7 +172,7 @@ theorem handle_sound (e : Env) (a : Acl) (c : Cache) (q : Bytes) (ex : Bool) (h 
       | true =>
         simp only [if_true, Option.some.injEq] at ht
         subst ht
-        exact ⟨rfl, authorize_sound e a _ hd.symm⟩
+        exact ⟨rfl, authorize_sound _ hd.symm⟩
     | none =>
       simp only []
       refine ⟨cacheSet_ok e a _ q hg.1, fun t ht => ?_⟩
@@ -137,7 +181,7 @@ theorem handle_sound (e : Env) (a : Acl) (c : Cache) (q : Bytes) (ex : Bool) (h 
       | true =>
         simp only [hd, if_true, Option.some.injEq] at ht
         subst ht
-        exact ⟨rfl, authorize_sound e a _ hd⟩
+        exact ⟨rfl, authorize_sound _ hd⟩
 
 /-- a connection: the queries with the expiry outcome of their cache look-up -/
 def run (e : Env) (a : Acl) : Cache → List (Bytes × Bool) → List (Bytes × Option Bytes)
@@ -146,15 +190,16 @@ def run (e : Env) (a : Acl) : Cache → List (Bytes × Bool) → List (Bytes × 
     let r := handle e a c q ex
     (q, r.2) :: run e a r.1 rest
 
-theorem run_sound (e : Env) (a : Acl) (ops : List (Bytes × Bool)) :
+theorem run_sound (U : Bytes → List Bytes × Bool) (e : Env) (a : Acl)
+    (hU : ∀ q, (proxyView e q).getD ([], false) = U q) (ops : List (Bytes × Bool)) :
     ∀ (c : Cache), CacheOK e a c →
-      ∀ q t, (q, some t) ∈ run e a c ops → t = q ∧ Safe a (upstreamView e t) := by
+      ∀ q t, (q, some t) ∈ run e a c ops → t = q ∧ Safe a (U t) := by
   induction ops with
   | nil => intro c _ q t h; simp [run] at h
   | cons op rest ih =>
     intro c hc q t h
     obtain ⟨q0, ex⟩ := op
-    have hs := handle_sound e a c q0 ex hc
+    have hs := handle_sound U e a hU c q0 ex hc
     simp only [run, List.mem_cons, Prod.mk.injEq] at h
     rcases h with ⟨hq, ht⟩ | h
     · subst hq
@@ -168,7 +213,18 @@ theorem _root_.KafVerif.C37.forward_sound (e : Env) (a : Acl) (enabled : Bool) (
     (ops : List (Bytes × Bool)) (q t : Bytes)
     (h : (q, some t) ∈ run e a ⟨enabled, max, []⟩ ops) :
     t = q ∧ Safe a (upstreamView e t) :=
-  run_sound e a ops ⟨enabled, max, []⟩ (fun en hen => by simp at hen) q t h
+  run_sound (upstreamView e) e a (KafVerif.C37.views_agree e) ops ⟨enabled, max, []⟩ (fun en hen => by simp at hen) q t h
+
+/-- **C37, assume/guarantee form.** The same for ANY upstream `U` (topics read / listing, per
+received text) on which the proxy's view agrees: the proxy is sound exactly as far as
+`views_agree` holds for the upstream it is put in front of.  (`entry_trim_views_differ` and
+`regexp_fold_views_differ` are two upstream/proxy pairs for which it does not.) -/
+theorem _root_.KafVerif.C37.forward_sound_rel (U : Bytes → List Bytes × Bool) (e : Env) (a : Acl)
+    (hU : ∀ q, (proxyView e q).getD ([], false) = U q) (enabled : Bool) (max : Nat)
+    (ops : List (Bytes × Bool)) (q t : Bytes)
+    (h : (q, some t) ∈ run e a ⟨enabled, max, []⟩ ops) :
+    t = q ∧ Safe a (U t) :=
+  run_sound U e a hU ops ⟨enabled, max, []⟩ (fun en hen => by simp at hen) q t h
 
 /-- the decision function alone (what `authorizeQuery` returns for the forwarded text) -/
 theorem _root_.KafVerif.C37.authorize_sound (e : Env) (a : Acl) (q : Bytes) (h : authorize e a q = true) :
@@ -259,6 +315,74 @@ theorem _root_.KafVerif.C37.double_semicolon_bypass_old :
   intro h
   have := h.1 (str "orders;") (by decide)
   revert this; decide
+
+/-! ### where the two views provably differ -/
+
+/-- the upstream entry normalisation `strings.TrimSuffix(strings.TrimSpace(query), ";")`
+(`Parse` strips one more `;`) -/
+def upEntryTrim (q : Bytes) : Bytes := trimSemi (trimSpace q)
+
+def aclDenySecret : Acl := ⟨[], [str "secret"]⟩
+def qShowSemi : Bytes := str "show partitions from secret;;"
+
+set_option maxRecDepth 100000 in
+/-- an upstream that strips one terminator on entry reads topic `secret` for `… secret;;` while the
+proxy (unchanged) authorises topic `secret;`: the views differ and the forwarded text is unsafe -/
+theorem _root_.KafVerif.C37.entry_trim_views_differ :
+    proxyView goEnv qShowSemi = some ([str "secret;"], false) ∧
+    upstreamViewG upEntryTrim goEnv qShowSemi = ([str "secret"], false) ∧
+    authorize goEnv aclDenySecret qShowSemi = true ∧
+    ¬ Safe aclDenySecret (upstreamViewG upEntryTrim goEnv qShowSemi) := by
+  refine ⟨by decide, by decide, by decide, ?_⟩
+  intro h
+  have := h.1 (str "secret") (by decide)
+  revert this; decide
+
+/-- `select * from orders İnformation_schema.tables` (U+0130 = `C4 B0`) -/
+def qDotI : Bytes := str "select * from orders " ++ [0xC4, 0xB0] ++ str "nformation_schema.tables"
+
+set_option maxRecDepth 100000 in
+/-- a proxy whose catalog test folds case like a `(?i)` regexp does not see `İnformation_schema`;
+the upstream's `strings.ToLower` does: authorised as a select on `orders`, answered from the
+catalog of all topics -/
+theorem _root_.KafVerif.C37.regexp_fold_views_differ :
+    proxyViewG lowerRegexpFold goEnv qDotI = some ([str "orders"], false) ∧
+    upstreamView goEnv qDotI = ([], true) ∧
+    authorizeG lowerRegexpFold goEnv aclOrders qDotI = true ∧
+    ¬ Safe aclOrders (upstreamView goEnv qDotI) := by
+  refine ⟨by decide, by decide, by decide, ?_⟩
+  intro h
+  have := h.2 (by decide)
+  revert this; decide
+
+/-- `select * from secret information_ſchema.tables` (U+017F = `C5 BF`) -/
+def qLongS : Bytes := str "select * from secret information_" ++ [0xC5, 0xBF] ++ str "chema.tables"
+def aclOneChar : Acl := ⟨[str "?"], []⟩
+
+set_option maxRecDepth 100000 in
+/-- … and the other way round: the regexp folds `ſ` onto `s`, `strings.ToLower` does not — the
+proxy takes the text for a catalog query (allowed: the pattern `?` matches `*`), the upstream
+selects from `secret` -/
+theorem _root_.KafVerif.C37.regexp_fold_views_differ_rev :
+    proxyViewG lowerRegexpFold goEnv qLongS = some ([], true) ∧
+    upstreamView goEnv qLongS = ([str "secret"], false) ∧
+    authorizeG lowerRegexpFold goEnv aclOneChar qLongS = true ∧
+    ¬ Safe aclOneChar (upstreamView goEnv qLongS) := by
+  refine ⟨by decide, by decide, by decide, ?_⟩
+  intro h
+  have := h.1 (str "secret") (by decide)
+  revert this; decide
+
+/-- on ASCII text the modelled `strings.ToLower` is the ASCII lowering -/
+theorem _root_.KafVerif.C37.lowerGo_ascii (s : Bytes) (h : ∀ b ∈ s, b < 128) : lowerGo s = asciiLower s := by
+  fun_induction lowerGo s with
+  | case1 t ih => exact absurd (h 0xC4 (by simp)) (by decide)
+  | case2 t ih => exact absurd (h 0xE2 (by simp)) (by decide)
+  | case3 c t h1 h2 ih =>
+    have := ih (fun b hb => h b (List.mem_cons_of_mem _ hb))
+    simp [asciiLower] at this ⊢
+    exact this
+  | case4 => rfl
 
 /-! ### non-vacuity -/
 
